@@ -136,6 +136,11 @@ def rng_for(seed: int, stream: str) -> random.Random:
     return random.Random(f"{seed}:{stream}")
 
 
+# Histories found by check.tie_search (diverging steps between the generated bodies and the model); the gateway
+# engines replay them together with the corpus.  Empty except during that second pass.
+EXTRA_HISTORIES: list = []
+
+
 def load_corpus(prop: str) -> list[dict]:
     d = os.path.join(VERIF, "corpus", prop)
     out = []
